@@ -60,7 +60,7 @@ HasSpl(op) == CASE op.k = "Spl" -> TRUE
                 [] OTHER -> HasSpl(op.o)
 
 \* operands
-GridsOp == IF Thorough THEN {E4, N5, Off3} ELSE {E4, Off3}
+GridsOp == IF Thorough THEN {E4, N5, Off3, Z4} ELSE {E4, Off3, Z4}
 OrdersOp == 0..3
 OneVar(S, o) == SplOn(S, o, IF SupNInt(S) = 0 THEN <<>> ELSE Generic(SupNInt(S), o, 0))
 TwoVar(S, o) == {OneVar(S, o)} \cup (IF SupNInt(S) = 0 THEN {} ELSE {SplOn(S, o, Generic(SupNInt(S), o, 1))})
